@@ -152,7 +152,7 @@ bool CPyList_SetItem(PyObject *list, CPyTagged index, PyObject *value) {
 bool CPyList_SetItemInt64(PyObject *list, int64_t index, PyObject *value) {
     size_t size = PyList_GET_SIZE(list);
     if (unlikely((uint64_t)index >= size)) {
-        if (index > 0) {
+        if (index >= 0) {
             PyErr_SetString(PyExc_IndexError, "list assignment index out of range");
             Py_DECREF(value);  // The reference is stolen also on failure
             return false;
